@@ -273,11 +273,13 @@ def run_cli(rq, holder):
     import io
     import eups.setupcmd
     holder.pop("eups", None)
+    holder.pop("text", None)
     out, err = io.StringIO(), io.StringIO()
     try:
         with contextlib.redirect_stdout(out), contextlib.redirect_stderr(err):
             status = eups.setupcmd.EupsSetup(args=cli_args(rq), toolname="eups_setup").run()
         text = out.getvalue().strip()
+        holder["text"] = out.getvalue()
         ok = status == 0 and text != "false"
         outcome = "ok" if ok else "fail"
     except SystemExit as ex:
@@ -349,6 +351,8 @@ def run_scenario(world, requests, env0):
                    "raw_after": after, "aliases": dict(e.aliases), "old_aliases": sorted(e.oldAliases), "ok": bool(ok),
                    "outcome": outcome,
                    "decisions": list(log), "decision_names": list(names)}
+            if rq.get("cli"):
+                rec["cmds"] = holder.get("text")      # what setupcmd printed for the shell: the command list of app.setup
             records.append(rec)
             if ok:
                 env = after
@@ -395,6 +399,21 @@ def model_line(world, res, rec, fuel=60):
                               "1" if rq.get("keep") else "0", flavors_field(res))
     ds = ",".join("!" if d is None else enc(d) for d in rec["decisions"])
     return "\t".join(["req", world_field(res), cfg, common.enc_env(rec["before"]), "", ds, enc(rq["name"]),
+                      "1" if rq.get("fwd", True) else "0", "1" if just else "0", str(fuel)])
+
+
+def model_line_embedded(res, rec, fuel=60):
+    """the request of model_line for the model with several stacks (op reqm): the world of one stack embedded"""
+    rq = rec["request"]
+    md, just = model_opts(rq)
+    cfg = "%s,%s,%s,%s," % (enc(FLAVOR), enc(res["stack"]), "-" if md is None or md < 0 else str(md), "1" if rq.get("keep") else "0")
+    prods = []
+    for key, info in sorted(res["parsed"].items()):
+        name, v = key.split(" ")
+        prods.append("%s:%s:%s:%s:%s:%s" % (enc(name), enc(v), enc(res["stack"]), enc(info.get("flavor") or FLAVOR),
+                                            enc(info["dir"]), "+".join(info["actions"])))
+    ds = ",".join("!" if d is None else "%s~%s" % (enc(d), enc(res["stack"])) for d in rec["decisions"])
+    return "\t".join(["reqm", "|".join(prods), cfg, common.enc_env(rec["before"]), "", ds, enc(rq["name"]),
                       "1" if rq.get("fwd", True) else "0", "1" if just else "0", str(fuel)])
 
 
@@ -538,21 +557,42 @@ def world_graph(res):
     return g
 
 
-def touched_names(res, name, just=False, max_depth=None):
-    g = world_graph(res)
+def world_graph_lines(res):
+    """name -> set of (dependency name, the line carries -j) over ALL declared versions"""
+    g = {}
+    for key, info in res["parsed"].items():
+        name = key.split(" ")[0]
+        g.setdefault(name, set())
+        for a in info["actions"]:
+            if a.startswith("S,"):
+                f = a.split(",")
+                g[name].add((common.dec(f[2]), f[3] == "1"))
+    return g
+
+
+def reach_within(g, name, just=False, max_depth=None):
+    """the products a request for name may reach: along dependency lines, no deeper than the stated depth; a line
+    that says -j (setupRequired(foo -j)) reaches foo itself and nothing below it - unless foo is also reached along
+    lines without -j.  g: name -> set of (dependency, -j)"""
     budget = 0 if just else (None if max_depth is None or max_depth < 0 else max_depth)
-    seen = {name: 0}
+    reached = set([name])
+    expand = {name: 0}                  # products whose own lines are read, with the smallest depth they are met at
     todo = [name]
     while todo:
         n = todo.pop()
-        d = seen[n]
+        d = expand[n]
         if budget is not None and d >= budget:
             continue
-        for m in g.get(n, ()):
-            if m not in seen or seen[m] > d + 1:
-                seen[m] = d + 1
+        for (m, j) in g.get(n, ()):
+            reached.add(m)
+            if not j and (m not in expand or expand[m] > d + 1):
+                expand[m] = d + 1
                 todo.append(m)
-    return set(seen)
+    return reached
+
+
+def touched_names(res, name, just=False, max_depth=None):
+    return reach_within(world_graph_lines(res), name, just=just, max_depth=max_depth)
 
 
 def product_dirs(res):
@@ -560,16 +600,57 @@ def product_dirs(res):
     return {tuple(k.split(" ")): v["dir"] for k, v in res["parsed"].items()}
 
 
+def has_ref(value):
+    return "$" in value
+
+
+def expand_refs(value, env):
+    """a table value with its ${VAR}, $?{VAR}, ${VAR-default} references replaced from env; None when one of them has
+    no value there (what the value contributes is then not known from env alone)"""
+    import re
+    missing = []
+
+    def sub(m):
+        key, default = m.group(2), m.group(3)
+        if key in env:
+            return env[key]
+        if default:
+            return default
+        missing.append(key)
+        return ""
+    out = re.sub(r"\$(\?)?{([^-}]*)(?:-([^}]+))?}", sub, value)
+    return None if missing else out
+
+
+def path_contribution_elems(val, d, env):
+    """the elements one path contribution stands for in env: a value that refers to other variables contributes the
+    elements of its expansion ([] when it cannot be expanded from env)"""
+    if not has_ref(val):
+        return [val]
+    x = expand_refs(val, env)
+    return [el for el in x.split(d) if el] if x is not None else []
+
+
 def own_contributions(res, name, version):
-    """path elements [(var, elem, delim)] and envSet values {var: value} of one product version"""
+    """path elements [(var, elem, delim)] and envSet values {var: value} of one product version; a value that refers
+    to other variables (a dollar reference is left after the table was loaded) is kept whole: see
+    path_contribution_elems / expand_refs"""
     info = res["parsed"]["%s %s" % (name, version)]
+    return contributions_of_actions(info["actions"])
+
+
+def contributions_of_actions(actions):
     paths, sets, aliases = [], {}, {}
-    for a in info["actions"]:
+    for a in actions:
         f = a.split(",")
         if f[0] == "P":
             # a value may hold several elements (the delimiter inside the value): each is a contribution
             d = common.dec(f[4])
-            for el in common.dec(f[3]).split(d):
+            val = common.dec(f[3])
+            if has_ref(val):
+                paths.append((common.dec(f[2]), val, d))
+                continue
+            for el in val.split(d):
                 if el:
                     paths.append((common.dec(f[2]), el, d))
         elif f[0] == "E":
@@ -642,6 +723,13 @@ def run_scenarios(ctx, scenarios, oracle, nproc=14):
     for out, (s, r, rec) in zip(outs, meta):
         compare(ctx, s["world"], r, rec, model_result(out))
         ctx.traces_validated += 1
+    # the one-stack world as the special case of the model with several stacks (coq/Model/SetupMS.v embed): every
+    # declaration in the one stack, every decision naming it - the two extracted models must answer the same
+    for out, mout, (s, r, rec) in zip(outs, ctx.model([model_line_embedded(r, rec) for (s, r, rec) in meta], pid="C01"), meta):
+        ctx.bump("one-stack-request-through-the-multi-stack-model")
+        if out != mout:
+            ctx.disagree({"world": s["world"], "request": rec["request"], "before": rec["before"], "decisions": rec["decisions"]},
+                         model_result(mout), model_result(out), where="one-stack-special-case-of-multi-stack-model")
     # the composed model (setup + resolver, coq/Model/SetupFull.v): same requests, no decisions fed
     fmeta = [(s, r, rec) for (s, r, rec) in meta if full_applicable(r)]
     ctx.bump("composed-model-outside-restrictions", len(meta) - len(fmeta))
@@ -1131,3 +1219,1356 @@ def directed_version_scenarios():
                 "requests": [{"name": "tie", "version": "1.0", "fwd": True}, {"name": "top", "version": "1.0.1", "fwd": True, "keep": True},
                              {"name": "top", "version": "1.0", "fwd": True}]})
     return out
+
+
+# ------------------------------------------------------------------ several stacks on EUPS_PATH
+# (coq/Model/SetupMS.v, SetupMSFull.v, SetupMSText.v; ops reqm / fullm / textm / ttablem / wffm of build/c01/run)
+#
+# An MS world is {"stacks": [stack, stack, ...]} in EUPS_PATH order, each stack a world of the shape above
+# ({"root", "products", "current", "generic"}).  The same product name and version may be declared in two stacks,
+# with different directories (always: the directory lives under the stack), tables, flavors and current tags.
+# A request may carry, besides the options above: "Z": [indices of the stacks, in the order given to -Z / path=],
+# "z": the word given to -z / dbz= (Eups.setEupsPath keeps the stacks whose path has it as a component).
+
+MS_ROOTS = [("sA", "sB"), ("sA", "sB"), ("sA", "s B"), ("s  A", "sB"), ("first", "second stack")]
+
+
+def is_ms(world):
+    return "stacks" in world
+
+
+def variant_lines(rng, name, lines):
+    """the table of the same name and version in the other stack: some contributions renamed or dropped, a dependency
+    line dropped or made optional, a value that depends on the stack root"""
+    out = []
+    for l in lines:
+        r = rng.random()
+        if l.startswith(("setupRequired", "setupOptional")):
+            if r < 0.2:
+                continue
+            if r < 0.35:
+                l = l.replace("setupRequired", "setupOptional")
+        elif r < 0.2:
+            continue
+        elif r < 0.6:
+            l = l.replace("/bin)", "/bin2)").replace("/lib)", "/lib2)").replace("/home)", "/home2)").replace("/x,", "/x2,")
+        out.append(l)
+    if not out:
+        out = ["envPrepend(PATH, ${PRODUCT_DIR}/bin2)"]
+    return out
+
+
+def stack_lines(rng, name, v):
+    """commands whose values depend on the stack the product is found in (Table.expandEupsVariables: PRODUCTS is
+    product.stackRoot(), UPS_DB its database directory)"""
+    up = name.upper()
+    out = []
+    if rng.random() < 0.4:
+        out.append("envSet(%s_STACK, %s)" % (up, rng.choice(["${PRODUCTS}/share/" + v, "${UPS_DB}/x/${PRODUCT_VERSION}", "${PRODUCTS}"])))
+    if rng.random() < 0.2:
+        out.append("envAppend(%s_PATH, ${PRODUCTS}/etc/%s/%s, \";\")" % (up, name, v))
+    return out
+
+
+def split_world_ms(rng, w):
+    """a world of gen_world spread over two stacks: every (name, version) lives in the first stack, in the second, or
+    in both (the second with a variant of the table); each stack has its own current tags and its own set of
+    fall-back-flavor products"""
+    ra, rb = rng.choice(MS_ROOTS)
+    gen_a = list(w.get("generic", []))
+    gen_b = gen_a if rng.random() < 0.6 else sorted(n for n in w["products"] if rng.random() < 0.4)
+    A = {"root": ra, "products": {}, "current": {}, "generic": gen_a}
+    B = {"root": rb, "products": {}, "current": {}, "generic": gen_b}
+    for name, vs in w["products"].items():
+        for v, lines in vs.items():
+            r = rng.random()
+            la = list(lines)
+            k = rng.randrange(len(la) + 1)
+            la[k:k] = stack_lines(rng, name, v)
+            lb = variant_lines(rng, name, lines)
+            k = rng.randrange(len(lb) + 1)
+            lb[k:k] = stack_lines(rng, name, v)
+            if r < 0.3:
+                A["products"].setdefault(name, {})[v] = la
+            elif r < 0.55:
+                B["products"].setdefault(name, {})[v] = lb
+            else:
+                A["products"].setdefault(name, {})[v] = la
+                B["products"].setdefault(name, {})[v] = lb
+    for st in (A, B):
+        for name, vs in st["products"].items():
+            want = w["current"].get(name)
+            r = rng.random()
+            if want in vs and r < 0.6:
+                st["current"][name] = want
+            elif r < 0.85:
+                st["current"][name] = rng.choice(sorted(vs))
+    out = {"stacks": [A, B]}
+    if w.get("family"):
+        out["family"] = w["family"]
+    return out
+
+
+def gen_world_ms(rng):
+    return split_world_ms(rng, gen_world(rng, spaces=False))
+
+
+def ms_names(world):
+    return sorted(set(n for st in world["stacks"] for n in st["products"]))
+
+
+def ms_versions(world, name):
+    return sorted(set(v for st in world["stacks"] for v in st["products"].get(name, {})))
+
+
+def gen_request_ms(rng, world, allow_fail=0.08, options=True):
+    name = rng.choice(ms_names(world))
+    rq = {"name": name, "fwd": True}
+    r = rng.random()
+    if r < 0.4:
+        rq["version"] = rng.choice(ms_versions(world, name))
+    elif r < 0.4 + allow_fail:
+        rq["version"] = "9.9"
+    if options:
+        r = rng.random()
+        n = len(world["stacks"])
+        if r < 0.22:
+            rq["Z"] = [rng.randrange(n)]
+        elif r < 0.32:
+            rq["Z"] = list(reversed(range(n)))
+        elif r < 0.45:
+            rq["z"] = os.path.basename(world["stacks"][rng.randrange(n)]["root"])
+        if rng.random() < 0.4:
+            rq["cli"] = True
+    return rq
+
+
+def ms_flavor_of(stack, name):
+    return "generic" if name in stack.get("generic", ()) else FLAVOR
+
+
+def materialise_ms(work, world):
+    """every stack is created and filled on its own (EUPS_PATH = that stack alone: declare moves a tag across all
+    the stacks of the path)"""
+    import eups
+    userdata = os.path.join(work, "user")
+    os.makedirs(os.path.join(userdata, "ups_db"))
+    roots = []
+    for st in world["stacks"]:
+        stack = os.path.join(work, st["root"])
+        roots.append(stack)
+        os.makedirs(os.path.join(stack, "ups_db"))
+        os.environ["EUPS_PATH"] = stack
+        os.environ["EUPS_USERDATA"] = userdata
+        os.environ["EUPS_FLAVOR"] = FLAVOR
+        os.environ["EUPS_SHELL"] = "sh"
+        for name, vs in st["products"].items():
+            for v, lines in vs.items():
+                d = os.path.join(stack, ms_flavor_of(st, name), name, v)
+                os.makedirs(os.path.join(d, "ups"))
+                with open(os.path.join(d, "ups", name + ".table"), "w") as f:
+                    f.write("\n".join(lines) + "\n")
+        for name, vs in st["products"].items():
+            for v in sorted(vs):
+                sys.modules["eups.db.Database"]._databases.clear()
+                e = eups.Eups(quiet=1, flavor=ms_flavor_of(st, name))
+                e.declare(name, v, os.path.join(stack, ms_flavor_of(st, name), name, v),
+                          tag=("current" if st["current"].get(name) == v else None))
+        for name in st["products"]:
+            sys.modules["eups.db.Database"]._databases.clear()
+            e = eups.Eups(quiet=1, flavor=ms_flavor_of(st, name))
+            cur = e.findTaggedProduct(name, "current")
+            want = st["current"].get(name)
+            if cur is not None and cur.version != want:
+                e.unassignTag("current", name)
+                if want:
+                    e.assignTag("current", name, want)
+    return roots, userdata
+
+
+def install_decision_spy_ms(log, names, holder):
+    """as install_decision_spy; a decision is [version, root of the stack the product was found in]"""
+    import eups
+    P = sys.modules["eups.Product"]
+    E = eups.Eups
+    stack = []
+    orig_setup = E.setup
+    orig_get = P.Product.getTable
+
+    def setup(self, productName, versionName=None, fwd=True, *a, **k):
+        if not stack:
+            holder["eups"] = self
+        frame = {"fwd": fwd, "idx": None, "seen": False}
+        if fwd:
+            frame["idx"] = len(log)
+            log.append(None)
+            names.append(productName)
+        stack.append(frame)
+        try:
+            return orig_setup(self, productName, versionName, fwd, *a, **k)
+        finally:
+            stack.pop()
+
+    def getTable(self, *a, **k):
+        if stack and stack[-1]["fwd"] and not stack[-1]["seen"]:
+            stack[-1]["seen"] = True
+            log[stack[-1]["idx"]] = [self.version, self.stackRoot()]
+        return orig_get(self, *a, **k)
+    E.setup = setup
+    P.Product.getTable = getTable
+
+
+def cli_args_ms(rq, roots):
+    args = cli_args(rq)
+    extra = []
+    if rq.get("Z") is not None:
+        extra += ["-Z", ":".join(roots[i] for i in rq["Z"])]
+    if rq.get("z"):
+        extra += ["-z", rq["z"]]
+    return args[:2] + extra + args[2:]
+
+
+def run_cli_ms(rq, roots, holder):
+    import contextlib
+    import io
+    import eups.setupcmd
+    holder.pop("eups", None)
+    holder.pop("text", None)
+    out, err = io.StringIO(), io.StringIO()
+    try:
+        with contextlib.redirect_stdout(out), contextlib.redirect_stderr(err):
+            status = eups.setupcmd.EupsSetup(args=cli_args_ms(rq, roots), toolname="eups_setup").run()
+        text = out.getvalue().strip()
+        holder["text"] = out.getvalue()
+        ok = status == 0 and text != "false"
+        outcome = "ok" if ok else "fail"
+    except SystemExit:
+        ok, outcome = False, "fail"
+    except Exception as ex:  # noqa
+        ok, outcome = False, "raise:" + type(ex).__name__
+    return ok, outcome, holder.get("eups") or _NoEups()
+
+
+def selected_roots(roots, rq):
+    """Eups.setEupsPath, stated independently: the stacks given to -Z (all of EUPS_PATH without it), of which -z keeps
+    those that have the word as a path component; duplicates dropped"""
+    import re
+    sel = [roots[i] for i in rq["Z"]] if rq.get("Z") is not None else list(roots)
+    if rq.get("z"):
+        sel = [p for p in sel if re.search(r"/%s(/|$)" % rq["z"], p)]
+    out = []
+    for p in sel:
+        if p not in out:
+            out.append(p)
+    return out
+
+
+def run_scenario_ms(world, requests, env0):
+    """child: materialise the stacks, run the requests in sequence (as run_scenario)"""
+    common.import_eups()
+    import eups
+    work = common.scratch_dir("setupms.")
+    try:
+        roots, userdata = materialise_ms(work, world)
+        base = {"EUPS_PATH": ":".join(roots), "EUPS_USERDATA": userdata, "EUPS_FLAVOR": FLAVOR, "EUPS_SHELL": "sh",
+                "HOME": "/root"}
+        env = dict(base)
+        for k, v in env0.items():
+            for i, r in enumerate(roots):
+                v = v.replace("@STACK%d@" % i, r)
+            env[k] = v.replace("@STACK@", roots[0])
+        sys.modules["eups.db.Database"]._databases.clear()
+        os.environ.clear()
+        os.environ.update(base)
+        e = eups.Eups(quiet=1)
+        e.selectVRO(None, None, None, None)
+        parsed = []
+        for i, st in enumerate(world["stacks"]):
+            for name in sorted(st["products"]):
+                for v in sorted(st["products"][name]):
+                    p = e.findProduct(name, v, eupsPathDirs=[roots[i]], flavor=ms_flavor_of(st, name))
+                    tbl = p.getTable()
+                    acts = tbl.actions(p.flavor or FLAVOR, setupType=e.setupType) if tbl else []
+                    parsed.append({"stack": i, "root": p.stackRoot(), "name": name, "version": v, "dir": p.dir,
+                                   "flavor": p.flavor, "actions": model_actions(acts), "lines": line_infos(acts, e),
+                                   "tags": [str(t) for t in p.tags]})
+        log, names, holder = [], [], {}
+        install_decision_spy_ms(log, names, holder)
+        records = []
+        for rq in requests:
+            sys.modules["eups.db.Database"]._databases.clear()
+            os.environ.clear()
+            os.environ.update(env)
+            del log[:]
+            del names[:]
+            before = dict(env)
+            kw = {}
+            if rq.get("keep"):
+                kw["keep"] = True
+            if rq.get("max_depth") is not None:
+                kw["max_depth"] = rq["max_depth"]
+            path_seen = None
+            if rq.get("cli"):
+                ok, outcome, e = run_cli_ms(rq, roots, holder)
+            else:
+                try:
+                    e = eups.Eups(quiet=1, path=(":".join(roots[i] for i in rq["Z"]) if rq.get("Z") is not None else None),
+                                  dbz=rq.get("z"), **kw)
+                    e.selectVRO(rq.get("tag"), None, rq.get("version"), rq.get("z"))
+                    ok, version, reason = e.setup(rq["name"], rq.get("version"), fwd=rq.get("fwd", True),
+                                                  noRecursion=bool(rq.get("just")))
+                    outcome = "ok" if ok else "fail"
+                except Exception as ex:  # noqa
+                    ok, outcome = False, "raise:" + type(ex).__name__
+                    e = holder.get("eups") or _NoEups()
+            if hasattr(e, "path"):
+                path_seen = [p for p in e.path if p != userdata]
+            after = dict(os.environ)
+            # Eups.setEupsPath rewrites EUPS_PATH in os.environ before Eups.oldEnviron is taken: the commands the shell
+            # sources never mention it, the variable of the shell is the one it had
+            if "EUPS_PATH" in before:
+                after["EUPS_PATH"] = before["EUPS_PATH"]
+            rec = {"request": rq, "before": before, "after": after if ok else before,
+                   "raw_after": after, "aliases": dict(e.aliases), "old_aliases": sorted(e.oldAliases), "ok": bool(ok),
+                   "outcome": outcome, "decisions": [d if d is None else list(d) for d in log],
+                   "decision_names": list(names), "path_seen": path_seen}
+            if rq.get("cli"):
+                rec["cmds"] = holder.get("text")
+            records.append(rec)
+            if ok:
+                env = after
+        return {"stack": roots[0], "roots": roots, "parsed": parsed, "records": records}
+    finally:
+        shutil.rmtree(work, ignore_errors=True)
+
+
+# ---- model side
+
+def ms_product_field(info):
+    return "%s:%s:%s:%s:%s:%s" % (enc(info["name"]), enc(info["version"]), enc(info["root"]),
+                                  enc(info.get("flavor") or FLAVOR), enc(info["dir"]), "+".join(info["actions"]))
+
+
+def world_field_ms(res):
+    return "|".join(ms_product_field(info) for info in res["parsed"])
+
+
+def ms_cfg(res, rq):
+    md, just = model_opts(rq)
+    return "%s,%s,%s,%s," % (enc(FLAVOR), enc(res["roots"][0]), "-" if md is None or md < 0 else str(md),
+                             "1" if rq.get("keep") else "0"), just
+
+
+def enc_mdecisions(ds):
+    return ",".join("!" if d is None else "%s~%s" % (enc(d[0]), enc(d[1])) for d in ds)
+
+
+def dec_mdecisions(x):
+    return [None if d == "!" else [common.dec(p) for p in d.split("~")] for d in x.split(",")] if x else []
+
+
+def model_line_ms(res, rec, fuel=60):
+    rq = rec["request"]
+    cfg, just = ms_cfg(res, rq)
+    return "\t".join(["reqm", world_field_ms(res), cfg, common.enc_env(rec["before"]), "", enc_mdecisions(rec["decisions"]),
+                      enc(rq["name"]), "1" if rq.get("fwd", True) else "0", "1" if just else "0", str(fuel)])
+
+
+def full_applicable_ms(res):
+    return not any(li.startswith("!") for info in res["parsed"] for li in info.get("lines", []))
+
+
+def model_line_full_ms(res, rec, fuel=60):
+    rq = rec["request"]
+    cfg, just = ms_cfg(res, rq)
+    lines, tags = [], []
+    for info in res["parsed"]:
+        lines.append("%s:%s:%s:%s" % (enc(info["name"]), enc(info["version"]), enc(info["root"]), "+".join(info["lines"])))
+        for t in info["tags"]:
+            tags.append("%s~%s~%s~%s~%s" % (enc(info["root"]), enc(info["name"]), enc(info.get("flavor") or FLAVOR), enc(t),
+                                            enc(info["version"])))
+    version = rq.get("version")
+    return "\t".join(["fullm", world_field_ms(res), "|".join(lines), ",".join(tags),
+                      ",".join(enc(r) for r in selected_roots(res["roots"], rq)), cfg,
+                      common.enc_env(rec["before"]), "", enc(rq["name"]), "-" if version is None else "=" + enc(version),
+                      "1" if rq.get("fwd", True) else "0", "1" if just else "0", str(fuel),
+                      ",".join(enc(f) for f in FLAVORS), ""])
+
+
+def model_result_full_ms(line):
+    f = line.split("\t")
+    if f[0] == "ok":
+        return {"ok": True, "env": dict(common.dec_env(f[1])), "aliases": dict(common.dec_env(f[2] if len(f) > 2 else "")),
+                "decisions": dec_mdecisions(f[3] if len(f) > 3 else "")}
+    if f[0] == "fail":
+        return {"ok": False, "kind": "fail", "decisions": dec_mdecisions(f[1] if len(f) > 1 else "")}
+    return {"ok": False, "kind": "err:" + "\t".join(f[1:])}
+
+
+def ms_table_text(world, info):
+    return "\n".join(world["stacks"][info["stack"]]["products"][info["name"]][info["version"]]) + "\n"
+
+
+def ms_tproduct_field(world, info):
+    return "%s:%s:%s:%s:%s:%s" % (enc(info["name"]), enc(info["version"]), enc(info["root"]),
+                                  enc(info.get("flavor") or FLAVOR), enc(info["dir"]), enc(ms_table_text(world, info)))
+
+
+def model_line_text_ms(world, res, rec, fuel=60):
+    rq = rec["request"]
+    cfg, just = ms_cfg(res, rq)
+    return "\t".join(["textm", "|".join(ms_tproduct_field(world, info) for info in res["parsed"]), cfg,
+                      common.enc_env(rec["before"]), "", enc_mdecisions(rec["decisions"]), enc(rq["name"]),
+                      "1" if rq.get("fwd", True) else "0", "1" if just else "0", str(fuel),
+                      ",".join(enc(t) for t in SETUP_TYPES), ",".join(enc(w) for w in IMPLICIT_WORDS)])
+
+
+def ms_world_graph(res):
+    g = {}
+    for info in res["parsed"]:
+        g.setdefault(info["name"], set())
+        for a in info["actions"]:
+            if a.startswith("S,"):
+                g[info["name"]].add(common.dec(a.split(",")[2]))
+    return g
+
+
+def ms_dependency_order(res):
+    g = ms_world_graph(res)
+    order, seen = [], set()
+
+    def visit(n):
+        if n in seen:
+            return
+        seen.add(n)
+        for m in sorted(g.get(n, ())):
+            visit(m)
+        order.append(n)
+    for n in sorted(g):
+        visit(n)
+    return order
+
+
+def ms_world_graph_lines(res):
+    g = {}
+    for info in res["parsed"]:
+        g.setdefault(info["name"], set())
+        for a in info["actions"]:
+            if a.startswith("S,"):
+                f = a.split(",")
+                g[info["name"]].add((common.dec(f[2]), f[3] == "1"))
+    return g
+
+
+def ms_touched_names(res, name, just=False, max_depth=None):
+    return reach_within(ms_world_graph_lines(res), name, just=just, max_depth=max_depth)
+
+
+# ---- helpers for the oracles on the real environments
+
+def decode_path(x):
+    return x.replace("-+-", " ")
+
+
+def ms_records(env):
+    """{product name: (version, root of the recorded stack, flavor)} from the SETUP_ variables, read the way
+    Eups.findSetupVersion reads them"""
+    out = {}
+    for k, v in env.items():
+        if not k.startswith("SETUP_"):
+            continue
+        w = v.split()
+        if len(w) < 2:
+            continue
+        name, args = w[0], w[1:]
+        version = args.pop(0) if args[0] != "-f" else "setup"
+        flavor = root = None
+        if len(args) > 1 and args[0] == "-f":
+            flavor = args[1]
+            args = args[2:]
+        if len(args) > 1 and args[0] in ("-Z", "-z"):
+            root = decode_path(args[1])
+        out[name] = (version, root, flavor)
+    return out
+
+
+def ms_entry(res, name, version, root):
+    for info in res["parsed"]:
+        if info["name"] == name and info["version"] == version and info["root"] == root:
+            return info
+    return None
+
+
+def ms_contributions(info):
+    return contributions_of_actions(info["actions"])
+
+
+def ms_contributions_state(info, env, minus=None):
+    """(present, missing) contributions of one declaration in env; [minus]: another declaration whose own
+    contributions do not count (a value the two tables share belongs to the one that is set up)"""
+    paths, sets, _ = ms_contributions(info)
+    mp, ms_ = ([], {}) if minus is None else ms_contributions(minus)[:2]
+    shared_p = set((var, val) for var, val, d in mp)
+    pres, miss = [], []
+    for var, val, d in paths:
+        if (var, val) in shared_p:
+            continue
+        have = [x for x in (env.get(var) or "").split(d) if x]
+        for el in path_contribution_elems(val, d, env):
+            (pres if el in have else miss).append((var, el))
+    for var, val in sets.items():
+        if ms_.get(var) == val:
+            continue
+        if has_ref(val):
+            val = expand_refs(val, env)
+            if not val:
+                continue
+        (pres if env.get(var) == val else miss).append((var, val))
+    return pres, miss
+
+
+def ms_inv_violation(res, env):
+    """None if the environment is consistent - for every product name: the directory variable and the contributions of
+    the declaration that SETUP_NAME records (its version IN ITS STACK) are there, nothing of the other declarations
+    of the name (other versions, the same version in another stack) is - else a description"""
+    recs = ms_records(env)
+    for name in sorted(set(i["name"] for i in res["parsed"])):
+        rec = recs.get(name)
+        cur = ms_entry(res, name, rec[0], rec[1]) if rec else None
+        if rec and cur is None:
+            return "SETUP_%s records %s in %s, which is not declared" % (name.upper(), rec[0], rec[1])
+        if cur is not None:
+            if env.get(name.upper() + "_DIR") != cur["dir"]:
+                return "%s_DIR is %r, the directory of %s %s declared in the recorded stack %s is %r" % (
+                    name.upper(), env.get(name.upper() + "_DIR"), name, cur["version"], cur["root"], cur["dir"])
+            _, miss = ms_contributions_state(cur, env)
+            if miss:
+                return "%s %s of %s is set up but its contributions %r are missing" % (name, cur["version"], cur["root"], miss[:3])
+        for info in res["parsed"]:
+            if info["name"] == name and info is not cur:
+                pres, _ = ms_contributions_state(info, env, minus=cur)
+                if pres:
+                    return "%s %s of %s is not what is set up (%r) but its contributions %r are present" % (
+                        name, info["version"], info["root"], rec, pres[:3])
+    return None
+
+
+def ms_norm_env(res, env):
+    delims = {}
+    for info in res["parsed"]:
+        for var, val, d in ms_contributions(info)[0]:
+            delims[var] = d
+    out = {}
+    for k, v in env.items():
+        if k in ("EUPS_PATH", "EUPS_USERDATA", "EUPS_FLAVOR", "EUPS_SHELL", "HOME"):
+            continue
+        d = delims.get(k, ":")
+        els = uniq_list([x for x in v.split(d) if x])
+        if els:
+            out[k] = els
+    return out
+
+
+def strip_roots(res, obj):
+    text = json.dumps(obj)
+    for i, r in sorted(enumerate(res["roots"]), key=lambda x: -len(x[1])):
+        text = text.replace(json.dumps(r)[1:-1], "@STACK%d@" % i)
+    return json.loads(text)
+
+
+def ms_shape(world, res, rec):
+    """histogram keys of one request on an MS world: what about the stacks it exercises (one key per trait)"""
+    rq = rec["request"]
+    tags = []
+    if rq.get("Z") is not None:
+        tags.append("request-with--Z:" + ("one-stack" if len(rq["Z"]) == 1 else "reordered-path"))
+    if rq.get("z"):
+        tags.append("request-with--z")
+    tags.append("request-through-" + ("setupcmd" if rq.get("cli") else "Eups.setup"))
+    sb, sa = ms_records(rec["before"]), ms_records(rec["after"])
+    roots = res["roots"]
+    n = rq["name"]
+    if rec["ok"] and rq.get("fwd", True) and n in sa:
+        tags.append("top-product-found-in-stack%d" % (roots.index(sa[n][1]) if sa[n][1] in roots else 9))
+        if len([i for i in res["parsed"] if i["name"] == n and i["version"] == sa[n][0]]) > 1:
+            tags.append("top-product-version-declared-in-both-stacks")
+        if n in sb and sb[n][1] != sa[n][1]:
+            tags.append("top-product-switches-stack" + (":same-version" if sb[n][0] == sa[n][0] else ":other-version"))
+        deps = [k for k in sa if k != n and sa[k] != sb.get(k)]
+        if any(sa[k][1] != sa[n][1] for k in deps):
+            tags.append("dependency-from-another-stack-than-top")
+        if any(k in sb and sb[k][1] != sa[k][1] for k in deps):
+            tags.append("dependency-switches-stack")
+    if rec["ok"] and rq.get("fwd", True):
+        # a forward call below the top level whose decision names another stack than the record that stays
+        for nm, d in zip(rec["decision_names"][1:], rec["decisions"][1:]):
+            if d and nm in sa and sa[nm][0] == d[0] and sa[nm][1] != d[1]:
+                tags.append("already-set-up-from-other-stack-than-decided")
+                break
+    if not rq.get("fwd", True) and n in sb:
+        tags.append("unsetup-of-product-from-stack%d" % (roots.index(sb[n][1]) if sb[n][1] in roots else 9))
+        if sb[n][1] not in selected_roots(roots, rq):
+            tags.append("unsetup-of-product-whose-stack-is-not-selected")
+    if any(v[1] != roots[0] for v in sb.values()):
+        tags.append("prior-set-up-from-second-stack")
+    if rq.get("keep") and any(v[1] != roots[0] for v in sb.values()):
+        tags.append("keep-with-product-from-second-stack")
+    return ["ms:" + t for t in tags]
+
+
+def wf_fraction_ms(ctx, results):
+    lines = ["\t".join(["wffm", world_field_ms(r), ",".join(enc(n) for n in ms_dependency_order(r))]) for r in results]
+    for out in ctx.model(lines, pid="C01"):
+        bits = out.strip()
+        if len(bits) != len(WF2_FIELDS) or set(bits) - set("01"):
+            raise RuntimeError("bad answer of the MS WF2 checker: %r" % (out,))
+        if "0" not in bits:
+            ctx.bump("ms-world-satisfies-WF2")
+        else:
+            ctx.bump("ms-world-outside-WF2")
+            for name, b in zip(WF2_FIELDS, bits):
+                if b == "0":
+                    ctx.bump("ms-world-outside-WF2:" + name)
+
+
+def run_scenarios_ms(ctx, scenarios, oracle, nproc=14):
+    """as run_scenarios, for worlds with several stacks: every request goes through the decision-fed model
+    (Model/SetupMS.v), the composed model (Model/SetupMSFull.v, no decisions fed: the resolver of C03 walks the
+    selected stacks) and the text-fed model (Model/SetupMSText.v); every table text is compared action by action;
+    then the oracle on the real records"""
+    results = common.par_map(run_scenario_ms, [(s["world"], s["requests"], s["env0"]) for s in scenarios], nproc=nproc)
+    meta = []
+    for s, r in zip(scenarios, results):
+        if r[0] != "ok":
+            raise RuntimeError("MS scenario child failed: %r" % (str(r)[-1500:],))
+        for rec in r[1]["records"]:
+            meta.append((s, r[1], rec))
+    outs = ctx.model([model_line_ms(r, rec) for (s, r, rec) in meta], pid="C01")
+    for out, (s, r, rec) in zip(outs, meta):
+        case_world = s["world"]
+        rec2 = dict(rec)
+        compare(ctx, case_world, r, rec2, model_result(out))
+        ctx.traces_validated += 1
+        ctx.bump("ms-decision-fed-comparisons")
+        # the stacks the command selected, stated independently of Eups.setEupsPath
+        if rec.get("path_seen") is not None and rec["path_seen"] != selected_roots(r["roots"], rec["request"]) \
+                and rec["outcome"] != "raise:EupsException":
+            ctx.disagree({"world": s["world"], "request": rec["request"]}, selected_roots(r["roots"], rec["request"]),
+                         rec["path_seen"], where="ms-selected-stacks")
+    fmeta = [(s, r, rec) for (s, r, rec) in meta if full_applicable_ms(r) and not nontrivial_versions_ms(s["world"])
+             and selected_roots(r["roots"], rec["request"])]
+    ctx.bump("ms-composed-model-outside-restrictions", len(meta) - len(fmeta))
+    fouts = ctx.model([model_line_full_ms(r, rec) for (s, r, rec) in fmeta], pid="C01")
+    for out, (s, r, rec) in zip(fouts, fmeta):
+        compare_full(ctx, s["world"], r, rec, model_result_full_ms(out))
+        ctx.bump("ms-composed-model-comparisons")
+        if len(rec["decisions"]) > 1:
+            ctx.bump("ms-composed-model-comparisons-with-dependencies")
+    # tables, text against real parser, stack by stack
+    seen, lines, keys = set(), [], []
+    for (s, r, rec) in meta:
+        if id(r) in seen:
+            continue
+        seen.add(id(r))
+        for info in r["parsed"]:
+            lines.append("\t".join(["ttablem", ms_tproduct_field(s["world"], info), ",".join(enc(t) for t in SETUP_TYPES),
+                                    ",".join(enc(w) for w in IMPLICIT_WORDS)]))
+            keys.append((s, r, info))
+    for out, (s, r, info) in zip(ctx.model(lines, pid="C01"), keys):
+        f = out.split("\t")
+        if f[0] == "outside":
+            ctx.bump("ms-text-table-outside")
+            continue
+        macts = f[1].split("+") if len(f) > 1 and f[1] else []
+        ctx.bump("ms-text-table-comparisons")
+        if macts != info["actions"]:
+            ctx.disagree({"product": [info["name"], info["version"], "stack%d" % info["stack"]],
+                          "table": ms_table_text(s["world"], info).split("\n"), "text_model": True},
+                         strip_roots(r, [common.dec(a) for a in macts]),
+                         strip_roots(r, [common.dec(a) for a in info["actions"]]), where="ms-text-table-actions")
+    touts = ctx.model([model_line_text_ms(s["world"], r, rec) for (s, r, rec) in meta], pid="C01")
+    for out, (s, r, rec) in zip(touts, meta):
+        f = out.split("\t")
+        if f[0] == "outside":
+            ctx.bump("ms-text-model-outside")
+            continue
+        compare_text(ctx, s["world"], r, rec, model_result(out))
+        ctx.bump("ms-text-model-comparisons")
+    wf_fraction_ms(ctx, [r[1] for r in results])
+    for s, r in zip(scenarios, results):
+        for rec in r[1]["records"]:
+            for key in ms_shape(s["world"], r[1], rec):
+                ctx.bump(key)
+        oracle(ctx, s, r[1])
+    return results
+
+
+def nontrivial_versions_ms(world):
+    return any(v not in VERSIONS for st in world["stacks"] for vs in st["products"].values() for v in vs)
+
+
+# ---- scenarios
+
+def gen_scenario_ms(rng, shape="plain"):
+    """shape plain: 0-3 prior setups (each possibly restricted to one stack with -Z / -z, so that products are set up
+    from the second stack) and a final request; inverse: setup X then unsetup X (the unsetup possibly with another
+    selection of stacks than the setup); options: the final request carries --keep / --just / --max-depth or is an
+    unsetup"""
+    w = gen_world_ms(rng)
+    env0 = {"PATH": "/usr/bin:/bin"}
+    if rng.random() < 0.3:
+        env0["XLIST"] = "/pre/x;/pre/y"
+    if rng.random() < 0.2:
+        env0["LD_LIBRARY_PATH"] = "/usr/lib"
+    if shape == "inverse":
+        first = gen_request_ms(rng, w, allow_fail=0.08)
+        second = {"name": first["name"], "fwd": False}
+        r = rng.random()
+        if r < 0.25:
+            second["Z"] = [rng.randrange(len(w["stacks"]))]       # unsetup while another stack is selected
+        elif r < 0.4 and first.get("Z") is not None:
+            second["Z"] = first["Z"]
+        if rng.random() < 0.3:
+            second["cli"] = True
+        return {"world": w, "requests": [first, second], "env0": env0}
+    reqs = [gen_request_ms(rng, w, allow_fail=0.0) for _ in range(rng.choice([0, 1, 2, 3]))]
+    last = gen_request_ms(rng, w, allow_fail=0.06)
+    if shape == "options":
+        r = rng.random()
+        if r < 0.45:
+            last["keep"] = True
+        elif r < 0.6:
+            last["just"] = True
+        elif r < 0.82:
+            last["max_depth"] = rng.choice([0, 1, 1, 2])
+        else:
+            last = dict(last, fwd=False)
+            last.pop("version", None)
+        if last.get("just") and last.get("max_depth") is not None:
+            del last["max_depth"]
+        if not reqs:
+            reqs = [gen_request_ms(rng, w, allow_fail=0.0)]
+    return {"world": w, "requests": reqs + [last], "env0": env0}
+
+
+def directed_ms_scenarios():
+    """two stacks sA, s B (a blank in the second root); lib 1.0 is declared in both with different tables, lib 2.0
+    only in the second, the current tag of lib is 1.0 in the first stack and 2.0 in the second; app 1.0 (first stack)
+    requires lib; tool 1.0 (second stack only) requires lib 1.0:
+      s1  setup lib (found in the first stack), setup -Z second lib 1.0 (same version, other stack: the top level
+          unsetups the table of the first stack and executes the one of the second), unsetup lib (undoes the second)
+      s2  setup -z (second) lib 1.0, then setup app on the whole path: lib 1.0 is found in the first stack, the version
+          recorded is the same: already set up, the record keeps the second stack; then unsetup app
+      s3  setup -Z second lib (current there: 2.0), setup --keep app: lib stays 2.0 of the second stack
+      s4  through the command line: setup -Z second:first tool, unsetup -Z first tool (tool is not declared in the
+          selected stack; SETUP_TOOL says where it is)
+      s5  a version that only the second stack has, asked for with the first stack alone selected: fails, nothing changes"""
+    libA = ["envPrepend(PATH, ${PRODUCT_DIR}/bin)", "envSet(LIB_HOME, ${PRODUCT_DIR}/home)", "envSet(LIB_STACK, ${PRODUCTS}/share)"]
+    libB = ["envPrepend(PATH, ${PRODUCT_DIR}/bin2)", "envAppend(LD_LIBRARY_PATH, ${PRODUCT_DIR}/lib)",
+            "envSet(LIB_STACK, ${UPS_DB}/x)", "addAlias(run_lib, echo lib second)"]
+    lib2 = ["envPrepend(PATH, ${PRODUCT_DIR}/bin)", "envSet(LIB_HOME, ${PRODUCT_DIR}/home)"]
+    A = {"root": "sA", "products": {"lib": {"1.0": libA}, "app": {"1.0": ["envPrepend(PATH, ${PRODUCT_DIR}/bin)", "setupRequired(lib)"]}},
+         "current": {"lib": "1.0", "app": "1.0"}, "generic": []}
+    B = {"root": "s B", "products": {"lib": {"1.0": libB, "2.0": lib2},
+                                     "tool": {"1.0": ["envPrepend(PATH, ${PRODUCT_DIR}/bin)", "setupRequired(lib 1.0)"]}},
+         "current": {"lib": "2.0", "tool": "1.0"}, "generic": []}
+    w = {"stacks": [A, B]}
+    env0 = {"PATH": "/usr/bin:/bin"}
+    mk = lambda reqs: {"world": w, "env0": dict(env0), "requests": reqs}
+    return [
+        mk([{"name": "lib", "fwd": True}, {"name": "lib", "version": "1.0", "fwd": True, "Z": [1]}, {"name": "lib", "fwd": False}]),
+        mk([{"name": "lib", "version": "1.0", "fwd": True, "z": "s B"}, {"name": "app", "fwd": True}, {"name": "app", "fwd": False}]),
+        mk([{"name": "lib", "fwd": True, "Z": [1]}, {"name": "app", "fwd": True, "keep": True}]),
+        mk([{"name": "tool", "fwd": True, "Z": [1, 0], "cli": True}, {"name": "tool", "fwd": False, "Z": [0], "cli": True}]),
+        mk([{"name": "lib", "version": "2.0", "fwd": True, "Z": [0]}, {"name": "lib", "version": "2.0", "fwd": True, "cli": True, "z": "s B"}]),
+    ]
+
+
+# ------------------------------------------------------------------ the command list of eups.app.setup, read as a shell would
+# (C02 observes the command list: setupcmd prints it joined by ";\n"; commands: export N=V, unset N, unset -f N,
+# name() { body ; }, false)
+
+def shell_word(w):
+    """one shell word of the emitted fragment: single-quoted pieces stand for themselves"""
+    out, i, q = [], 0, False
+    while i < len(w):
+        c = w[i]
+        if c == "'":
+            q = not q
+        else:
+            out.append(c)
+        i += 1
+    return "".join(out)
+
+
+def shell_apply(text, env, funcs=None):
+    """the environment (and function table) of a shell that starts with env and sources text; None when a command is
+    not one of the forms above"""
+    import re
+    env = dict(env)
+    funcs = {} if funcs is None else funcs
+    for cmd in text.split(";\n"):
+        cmd = cmd.strip()
+        if not cmd:
+            continue
+        if cmd == "false":
+            return env
+        m = re.match(r"export ([A-Za-z_][A-Za-z_0-9]*)=(.*)$", cmd, re.S)
+        if m:
+            env[m.group(1)] = shell_word(m.group(2))
+            continue
+        m = re.match(r"unset (-f )?([A-Za-z_][A-Za-z_0-9]*)$", cmd)
+        if m:
+            # (unset without option: the variable of that name; when there is none, the function of that name - this
+            # is how app.setup takes an alias away)
+            if m.group(1) or m.group(2) not in env:
+                funcs.pop(m.group(2), None)
+            else:
+                env.pop(m.group(2), None)
+            continue
+        m = re.match(r"([A-Za-z_][A-Za-z_0-9]*)\(\) \{ (.*) ; \}$", cmd, re.S)
+        if m:
+            funcs[m.group(1)] = m.group(2)
+            continue
+        return None
+    return env
+
+
+# ------------------------------------------------------------------ table values that refer to other variables
+# (the directory variable of a dependency set up by an earlier line of the same table; variables of the user's
+# environment whose value is a list in the delimiter of the command)
+
+def dep_variable_patterns(world):
+    """regular expressions for the path elements described by finding D60 / D61: the expansion of an element of a
+    path command (envPrepend / envAppend / pathPrepend / pathAppend) whose value refers to the directory variable
+    <DEP>_DIR (or SETUP_<DEP>) of a product that the same table sets up on an earlier line"""
+    import re
+    stacks = world["stacks"] if is_ms(world) else [world]
+    allv = {}
+    for st in stacks:
+        for n, vs in st["products"].items():
+            allv.setdefault(n, set()).update(vs)
+    var_re = r"\$\??\{([^-}]*)(?:-[^}]+)?\}"
+    pats = []
+    for st in stacks:
+        for n, vs in st["products"].items():
+            for v, lines in vs.items():
+                deps = []
+                for l in lines:
+                    m = re.match(r"\s*(\w+)\s*\((.*)\)", l)
+                    if not m:
+                        continue
+                    cmd, args = m.group(1).lower(), m.group(2)
+                    if cmd in ("setuprequired", "setupoptional"):
+                        words = [x for x in args.replace('"', " ").split() if not x.startswith("-")]
+                        if words:
+                            deps.append(words[0])
+                        continue
+                    if cmd not in ("envprepend", "envappend", "pathprepend", "pathappend"):
+                        continue
+                    parts = [a.strip() for a in args.split(",")]
+                    if len(parts) < 2:
+                        continue
+                    value = parts[1].strip('"')
+                    delim = parts[2].strip('"') if len(parts) > 2 and parts[2].strip('"') else ":"
+                    for t in value.split(delim):
+                        refs = re.findall(var_re, t)
+                        hit = [d for d in deps if d.upper() + "_DIR" in refs or "SETUP_" + d.upper() in refs]
+                        if not hit:
+                            continue
+                        rx, pos = "", 0
+                        for m2 in re.finditer(var_re, t):
+                            rx += re.escape(t[pos:m2.start()])
+                            pos = m2.end()
+                            key = m2.group(1)
+                            d = [x for x in hit if key == x.upper() + "_DIR"]
+                            if d:
+                                rx += r".*/%s/(?:%s)" % (re.escape(d[0]), "|".join(re.escape(x) for x in sorted(allv.get(d[0], ["?"]))))
+                            elif key in ("PRODUCT_DIR", "PROD_DIR", "UPS_PROD_DIR", n.upper() + "_DIR"):
+                                rx += r".*/%s/%s" % (re.escape(n), re.escape(v))
+                            else:
+                                rx += r".*"
+                        rx += re.escape(t[pos:])
+                        pats.append(re.compile(rx + r"$"))
+    return pats
+
+
+def m_dep_variable_not_restored(f):
+    """finding D60 (C02): after setup + unsetup the only difference is that path variables keep elements that are the
+    expansion of a path command referring to the directory variable of a product set up earlier in the same table"""
+    if f["kind"] != "not-restored":
+        return False
+    pats = dep_variable_patterns(f["input"]["world"])
+    if not pats:
+        return False
+    exp, obs = f["expected"], f["observed"]
+    extra = 0
+    for var in set(exp) | set(obs):
+        e, o = exp.get(var) or [], obs.get(var) or []
+        if not isinstance(e, list) or not isinstance(o, list):
+            return False
+        left = [x for x in o if not any(p.match(x) for p in pats)]
+        if left != [x for x in e if not any(p.match(x) for p in pats)] or any(x in o and any(p.match(x) for p in pats) for x in e):
+            return False
+        extra += len(o) - len(left)
+    return extra > 0
+
+
+def m_dep_variable_residue(f):
+    """finding D61 (C01): the variable that still refers to the directory of the replaced version does so only through
+    elements that are the expansion of such a command"""
+    import re
+    if f["kind"] != "residue-dir" or not isinstance(f["observed"], dict):
+        return False
+    m = re.search(r"directory of the replaced (\S+) (\S+)", f["what"])
+    pats = dep_variable_patterns(f["input"]["world"])
+    if not m or not pats:
+        return False
+    name, old = m.group(1), m.group(2)
+    hits = 0
+    for var, val in f["observed"].items():
+        for x in val.replace(";", ":").split(":"):
+            if ("/%s/%s/" % (name, old)) in x + "/":
+                if not any(p.match(x) for p in pats):
+                    return False
+                hits += 1
+    return hits > 0
+
+
+REF_OUTSIDE = {"SITE_DIRS": "/site/%s/a;/site/%s/b", "EXTRA_BIN": "/x/%s/bin:/y/%s/bin", "ONE_DIR": "/opt/%s/one", "SITE_ONE": "/site/%s/only"}
+
+
+def gen_scenario_refs(rng, shape="plain"):
+    """tables whose values refer to OTHER variables than the product's own directory:
+      - the directory variable of a dependency the same table sets up on an earlier line (envSet(TOP_PLUGINS,
+        ${DEP_DIR}/plugins), a pair of directories in one envSet value; a modest share of path commands of that kind:
+        findings D60 / D61)
+      - variables of the user's environment: one directory, or a LIST in the delimiter of the command
+        (envAppend(PLUGIN_PATH, ${SITE_DIRS}, ";") with SITE_DIRS=/site/a;/site/b), in the forms ${V}, $?{V} (defined or
+        not), ${V-default}, alone or next to an element of the product's own
+    dep p1 (2-3 versions), top p3 (one line per version naming a version of p1), a bystander p2 with references of
+    its own.  shape plain: setup top v, then setup top (bare or another version) - the version of top and of p1 is
+    replaced; inverse: setup top, unsetup top; options: the last request carries --keep / --just / --max-depth or is
+    an unsetup.  The owner of a referring line is always the product requested (a line is only taken back when its
+    owner is unset up)"""
+    dep, by, top = "p1", "p2", "p3"
+    env0 = {"PATH": "/usr/bin:/bin"}
+    # every product refers to variables of its own (SITE_DIRS_P3 ...): the elements different products contribute
+    # stay apart
+    defined = [(k, n) for k in sorted(REF_OUTSIDE) for n in (dep, by, top) if rng.random() < 0.75]
+    for k, n in defined:
+        env0["%s_%s" % (k, n.upper())] = REF_OUTSIDE[k].replace("%s", n)
+    if rng.random() < 0.3:
+        env0["PLUGIN_PATH"] = rng.choice(["/pre/p", "/pre/p;/site/a", ""])
+
+    def own(n):
+        up = n.upper()
+        out = ["envPrepend(PATH, ${PRODUCT_DIR}/bin)"]
+        if rng.random() < 0.5:
+            out.append("envAppend(LD_LIBRARY_PATH, ${PRODUCT_DIR}/lib)")
+        if rng.random() < 0.5:
+            out.append("envSet(%s_HOME, ${PRODUCT_DIR}/home)" % up)
+        if rng.random() < 0.25:
+            out.append("addAlias(run_%s, echo %s)" % (n, n))
+        return out
+
+    def outside(n):
+        """lines that refer to variables of the user's environment (every non-optional reference is to a defined one)"""
+        up = n.upper()
+        q = lambda k: ("${%s_%s}" % (k, up)) if (k, n) in defined and rng.random() < 0.6 else \
+            rng.choice(["$?{%s_%s}" % (k, up), "${%s_%s-/dflt/%s/%s}" % (k, up, n, k.lower())])
+        pool = ['envAppend(PLUGIN_PATH, %s, ";")' % q("SITE_DIRS"),
+                "envPrepend(PATH, %s)" % q("EXTRA_BIN"),
+                'envPrepend(PLUGIN_PATH, %s, ";")' % q("SITE_ONE"),
+                "envAppend(%s_PATH, %s/share:${PRODUCT_DIR}/share)" % (up, q("ONE_DIR")),
+                "envSet(%s_SITE, %s/cfg)" % (up, q("ONE_DIR")),
+                "envSet(%s_LIST, %s)" % (up, q("SITE_DIRS")),
+                "envSet(%s_OPT, $?{NOT_DEFINED_ANYWHERE}/x)" % up,
+                "envPrepend(PATH, $?{NOT_DEFINED_ANYWHERE}/bin)"]
+        return [l for l in pool if rng.random() < 0.35]
+
+    dvs = sorted(rng.sample(VERSIONS, rng.choice([2, 2, 3])))
+    prods = {dep: {v: own(dep) + (outside(dep) if rng.random() < 0.3 else []) for v in dvs},
+             by: {"1.0": own(by) + outside(by)}}
+    tvs = sorted(rng.sample(VERSIONS, 2))
+    prods[top] = {}
+    for v in tvs:
+        dv = rng.choice(dvs)
+        kind = "setupRequired"
+        depline = "%s(%s %s)" % (kind, dep, dv) if rng.random() < 0.8 else "%s(%s)" % (kind, dep)
+        D = "${%s_DIR}" % dep.upper()
+        after = [l for l in ["envSet(%s_PLUGINS, %s/plugins)" % (top.upper(), D),
+                             "envSet(%s_PAIR, %s/etc:${PRODUCT_DIR}/etc)" % (top.upper(), D),
+                             "envSet(%s_DEPSETUP, ${SETUP_%s})" % (top.upper(), dep.upper())] if rng.random() < 0.45]
+        if rng.random() < 0.12:
+            # findings D60 / D61: a path command of this kind is not taken back (the dependency is unset first)
+            after.append(rng.choice(["envPrepend(PATH, %s/tools)" % D, 'envAppend(%s_PATH, %s/share)' % (top.upper(), D)]))
+        rng.shuffle(after)
+        before = own(top)
+        k = rng.randrange(len(before) + 1)
+        lines = before[:k] + [depline] + before[k:]
+        for l in after + outside(top):
+            lines.insert(rng.randrange(lines.index(depline) + 1, len(lines) + 1), l)
+        prods[top][v] = lines
+    w = {"root": rng.choice(["stack", "stack", "stack dir"]), "products": prods,
+         "current": {dep: rng.choice(dvs), by: "1.0", top: rng.choice(tvs)}, "generic": [], "family": "refs"}
+    first = {"name": top, "fwd": True, "version": rng.choice(tvs)}
+    cli = rng.random() < 0.4
+    if shape == "inverse":
+        if rng.random() < 0.3:
+            first.pop("version")
+        reqs = [first, {"name": top, "fwd": False}]
+    else:
+        pre = [{"name": by, "fwd": True}] if rng.random() < 0.5 else []
+        last = {"name": top, "fwd": True}
+        if rng.random() < 0.6:
+            last["version"] = rng.choice([v for v in tvs if v != first["version"]] or tvs)
+        if shape == "options":
+            r = rng.random()
+            if r < 0.3:
+                last["keep"] = True
+            elif r < 0.45:
+                last["just"] = True
+            elif r < 0.65:
+                last["max_depth"] = rng.choice([0, 1, 2])
+            elif r < 0.85:
+                last = {"name": top, "fwd": False}
+        reqs = pre + [first, last]
+    if cli:
+        for q in reqs:
+            q["cli"] = True
+    return {"world": w, "requests": reqs, "env0": env0}
+
+
+# ------------------------------------------------------------------ neighbours: names in a prefix relation, -j on table lines
+NAME_PAIRS = [("afw", "afwdata"), ("base", "base_utils"), ("lib", "libx"), ("p1", "p10"), ("sci", "scipipe")]
+
+
+def gen_scenario_neighbours(rng, shape=None):
+    """a small graph around two products whose NAMES are in a prefix relation (afw / afwdata): one of the two (either) is
+    below the requested product, the other is a bystander set up beforehand; the product below also has a dependency
+    of its own (dd) that the requested product's table may or may not list; the requested product's lines are plain,
+    carry -j (name -j version / -j name version), or form the block of an expanded table (if (type == exact) with
+    one -j line per product, dependencies first).  Sequences (shape):
+      replace    bystander, top 1.0, top 2.0 (the product below is replaced by another version)
+      unsetup    bystander, top 1.0, unsetup top
+      just       bystander, the product below on its own (with dd), setup -j of another version of it
+      own-dep    dd on its own, top (whose line says: just the product below), then unsetup top / top in another version
+      exact      the product below on its own (with dd), then top, whose exact block lists dd -j and the product below -j
+                 in another version"""
+    a, b = rng.choice(NAME_PAIRS)
+    s, l = (a, b) if rng.random() < 0.7 else (b, a)       # s is below the requested product, l is the bystander
+    dd, top = "dd", "top"
+    shape = shape or rng.choice(["replace", "unsetup", "just", "own-dep", "exact"])
+
+    def own(n, v):
+        up = n.upper()
+        out = ["envPrepend(PATH, ${PRODUCT_DIR}/bin)"]
+        if rng.random() < 0.6:
+            out.append("envSet(%s_HOME, ${PRODUCT_DIR}/home)" % up)
+        if rng.random() < 0.4:
+            out.append("envAppend(LD_LIBRARY_PATH, ${PRODUCT_DIR}/lib)")
+        if rng.random() < 0.3:
+            out.append("envSet(%s_DIRS, ${PRODUCT_DIR}/a:${PRODUCT_DIR}/b)" % up)     # a variable named <P>_DIRS
+        return out
+    prods = {dd: {v: own(dd, v) for v in ("1.0", "2.0")},
+             l: {"1.0": own(l, "1.0")},
+             s: {v: own(s, v) + (["setupRequired(%s)" % dd] if (v == "1.0" or rng.random() < 0.6) else []) for v in ("1.0", "2.0")}}
+
+    def line(v, j):
+        if not j:
+            return "setupRequired(%s %s)" % (s, v)
+        return rng.choice(["setupRequired(%s -j %s)", "setupRequired(-j %s %s)", "setupRequired(%s %s -j)"]) % (s, v)
+    jline = shape in ("own-dep",) or (shape in ("replace", "unsetup") and rng.random() < 0.4)
+    prods[top] = {}
+    for v in ("1.0", "2.0"):
+        if shape == "exact":
+            blk = ["setupRequired(%s -j 1.0)" % dd, "setupRequired(%s -j %s)" % (s, v)]
+            prods[top][v] = own(top, v) + (["if (type == exact) {"] + blk + ["}"] if rng.random() < 0.6 else blk)
+        else:
+            prods[top][v] = own(top, v) + [line(v, jline)]
+    cur = {dd: "1.0", l: "1.0", s: rng.choice(["1.0", "2.0"]), top: rng.choice(["1.0", "2.0"])}
+    w = {"root": "stack", "products": prods, "current": cur, "generic": [], "family": "neighbours"}
+    rq = lambda n, v=None, **k: dict({"name": n, "fwd": True}, **(dict(k, version=v) if v else k))
+    pre = [rq(l)] if rng.random() < 0.85 else []
+    if shape == "replace":
+        reqs = pre + [rq(top, "1.0"), rq(top, "2.0")]
+    elif shape == "unsetup":
+        reqs = pre + [rq(top, rng.choice(["1.0", "2.0"])), {"name": top, "fwd": False}]
+    elif shape == "just":
+        reqs = pre + [rq(s, "1.0"), rq(s, "2.0", just=True)]
+    elif shape == "own-dep":
+        last = {"name": top, "fwd": False} if rng.random() < 0.5 else rq(top, "2.0")
+        reqs = pre + [rq(dd, "1.0"), rq(top, "1.0"), last]
+    else:
+        reqs = pre + [rq(s, "1.0"), rq(top, "2.0")]
+    if rng.random() < 0.35:
+        for q in reqs:
+            q["cli"] = True
+    env0 = {"PATH": "/usr/bin:/bin"}
+    if rng.random() < 0.3:
+        env0["LD_LIBRARY_PATH"] = "/usr/lib"
+    return {"world": w, "requests": reqs, "env0": env0}
+
+
+# ------------------------------------------------------------------ several stacks: directed families
+# (what the random split of split_world_ms meets only by chance)
+
+def gen_scenario_ms_directed(rng, shape="plain", kind=None):
+    """two stacks; kinds
+      two-copies       the same version of lib in both stacks, with different tables and directories; the copy of the
+                       LATER stack is the one set up (only that copy carries the current tag, or it is asked for with
+                       -Z / -z); then the version is replaced (another version of app, of lib) or unset up
+      expression       requests by relational expression (a dependency line lib >= 1.0, lib > 1.0, lib [>= 2.0], or
+                       the top-level request itself): the newest version that satisfies it is declared only in a
+                       stack BEHIND another stack that has an older satisfying version
+      keep-unselected  --keep while a dependency is set up from a stack that the request does not select (-Z / -z
+                       name the other stack), which declares another version that the tables / tags designate
+    shape plain (C01) / inverse (C02: setup X, unsetup X) / options (C04: --keep, --just, --max-depth, unsetup)"""
+    ra, rb = rng.choice(MS_ROOTS)
+    kinds = {"plain": ["two-copies", "expression", "expression"], "inverse": ["expression", "two-copies"],
+             "options": ["keep-unselected", "keep-unselected", "two-copies", "expression"]}
+    kind = kind or rng.choice(kinds[shape])
+    lib, app = "lib", "app"
+
+    def own(n, variant=""):
+        up = n.upper()
+        out = ["envPrepend(PATH, ${PRODUCT_DIR}/bin%s)" % variant]
+        if rng.random() < 0.6:
+            out.append("envSet(%s_HOME, ${PRODUCT_DIR}/home%s)" % (up, variant))
+        if rng.random() < 0.4:
+            out.append("envAppend(LD_LIBRARY_PATH, ${PRODUCT_DIR}/lib%s)" % variant)
+        if rng.random() < 0.3:
+            out.append("envSet(%s_STACK, ${PRODUCTS}/share)" % up)
+        return out
+    A = {"root": ra, "products": {}, "current": {}, "generic": []}
+    B = {"root": rb, "products": {}, "current": {}, "generic": []}
+    Zb = lambda q: dict(q, Z=[1]) if rng.random() < 0.6 else dict(q, z=os.path.basename(rb))
+    Za = lambda q: dict(q, Z=[0]) if rng.random() < 0.6 else dict(q, z=os.path.basename(ra))
+    rq = lambda n, v=None, **k: dict({"name": n, "fwd": True}, **(dict(k, version=v) if v else k))
+    if kind == "two-copies":
+        v1, v2 = rng.choice([("1.0", "2.0"), ("2.0", "3.0"), ("2.0", "1.0")])
+        A["products"][lib] = {v1: own(lib)}
+        B["products"][lib] = {v1: own(lib, "2")}
+        for st in rng.choice([[A], [B], [A, B]]):
+            st["products"][lib][v2] = own(lib, "3")
+        B["current"][lib] = v1
+        if rng.random() < 0.3:
+            A["current"][lib] = v1
+        home = rng.choice([A, B])
+        home["products"][app] = {"1.0": own(app) + [rng.choice(["setupRequired(%s)" % lib, "setupRequired(%s %s)" % (lib, v1)])],
+                                 "2.0": own(app) + ["setupRequired(%s %s)" % (lib, v2)]}
+        home["current"][app] = "1.0"
+        first = rng.choice([Zb(rq(lib, v1)), rq(app, "1.0"), Zb(rq(app, "1.0")) if home is B else rq(app, "1.0")])
+        if shape == "inverse":
+            reqs = [first, {"name": first["name"], "fwd": False}]
+        else:
+            last = rng.choice([rq(app, "2.0"), rq(lib, v2), rq(app, "2.0")])
+            if shape == "options":
+                last = rng.choice([dict(last, keep=True), dict(last, max_depth=1), {"name": first["name"], "fwd": False},
+                                   rq(lib, v2, just=True)])
+            reqs = [first, last]
+    elif kind == "expression":
+        lo = rng.choice(["1.0", "2.0"])
+        his = [v for v in VERSIONS if v > lo]
+        A["products"][lib] = {lo: own(lib)}
+        if rng.random() < 0.3:
+            A["products"][lib]["1.0"] = own(lib)
+        hi = rng.choice(his)
+        B["products"][lib] = {hi: own(lib, "2")}
+        if rng.random() < 0.4:
+            B["products"][lib][lo] = own(lib, "3")
+        A["current"][lib] = lo
+        if rng.random() < 0.5:
+            B["current"][lib] = rng.choice(sorted(B["products"][lib]))
+        bound = rng.choice(["1.0", lo])
+        ex = rng.choice([">= %s" % bound, ">= %s" % bound, "> %s" % ("1.0" if lo != "1.0" else "0.9"), "[>= %s]" % bound,
+                         ">= %s || == 9.9" % bound])
+        home = rng.choice([A, A, B])
+        kindw = rng.choice(["setupRequired", "setupRequired", "setupOptional"])
+        home["products"][app] = {"1.0": own(app) + ["%s(%s %s)" % (kindw, lib, ex)]}
+        home["current"][app] = "1.0"
+        top = rng.choice([rq(app), rq(app), rq(lib, ex.strip("[]") if ex.startswith("[") else ex)])
+        if rng.random() < 0.25:
+            top["Z"] = [1, 0]                  # the path the other way round: the newest version is in the first stack searched
+        if shape == "inverse":
+            reqs = [top, {"name": top["name"], "fwd": False}]
+        elif shape == "options":
+            reqs = [rq(lib, lo), rng.choice([dict(top, keep=True), dict(top, max_depth=rng.choice([0, 1])), dict(top)])]
+        else:
+            reqs = [top] if rng.random() < 0.7 else [rq(app), top]
+    else:
+        A["products"][lib] = {"1.0": own(lib)}
+        B["products"][lib] = {"2.0": own(lib, "2")}
+        if rng.random() < 0.5:
+            B["products"][lib]["1.0"] = own(lib, "3")
+        if rng.random() < 0.3:
+            A["products"][lib]["3.0"] = own(lib)
+        A["current"][lib] = rng.choice(sorted(A["products"][lib]))
+        B["current"][lib] = "2.0"
+        A["products"][app] = {"1.0": own(app) + [rng.choice(["setupRequired(%s)", "setupRequired(%s -t current)", "setupRequired(%s >= 1.0)",
+                                                             "setupOptional(%s)", "setupRequired(%s 1.0)"]) % lib]}
+        A["current"][app] = "1.0"
+        reqs = [Zb(rq(lib, rng.choice(["2.0", None]))), Za(rq(app, keep=True))]
+    if rng.random() < 0.35:
+        for q in reqs:
+            q["cli"] = True
+    return {"world": {"stacks": [A, B], "family": "ms-" + kind}, "requests": reqs, "env0": {"PATH": "/usr/bin:/bin"}}
+
+
+# ---- the version a relational expression designates, over the selected stacks (stated independently of
+# Eups._findProductsByExpr / _selectPreferredProduct): the newest declared version that satisfies it, the flavors
+# being tried in fall-back order
+
+def parse_relational(text):
+    """[(op, version), ...] of  op v || op v ...;  None when the text is not of that shape"""
+    import re
+    out = []
+    for alt in text.split("||"):
+        m = re.match(r"\s*(>=|<=|==|>|<)\s*(\S+)\s*$", alt)
+        if not m:
+            return None
+        out.append((m.group(1), m.group(2)))
+    return out or None
+
+
+def dotted_key(v):
+    try:
+        return tuple(int(x) for x in v.split("."))
+    except ValueError:
+        return None
+
+
+def satisfies(v, alts):
+    import operator
+    ops = {">=": operator.ge, "<=": operator.le, "==": operator.eq, ">": operator.gt, "<": operator.lt}
+    return any(dotted_key(x) is not None and ops[op](dotted_key(v), dotted_key(x)) for op, x in alts)
+
+
+def designated_by_expression(res, roots, name, alts):
+    """the version the expression designates in the stacks roots; None when no declared version satisfies it"""
+    for fl in FLAVORS:
+        ok = [i["version"] for i in res["parsed"] if i["name"] == name and i["root"] in roots and (i.get("flavor") or FLAVOR) == fl
+              and dotted_key(i["version"]) is not None and satisfies(i["version"], alts)]
+        if ok:
+            return max(ok, key=dotted_key)
+    return None
+
+
+def ms_expression_requests(res, rec):
+    """[(product name, alternatives, decision)] for the look-ups by pure relational expression made during a plain
+    successful request whose decision can be attributed: the top-level request itself, and the lines (no other
+    option than -j) of the tables of the products the request set up, for a product that was not set up before, was
+    decided once during the request and is named by one such line only"""
+    rq = rec["request"]
+    if not rec["ok"] or not rq.get("fwd", True) or rq.get("keep") or rq.get("just") or rq.get("max_depth") is not None:
+        return []
+    if any(dotted_key(i["version"]) is None for i in res["parsed"]):
+        return []
+    sb, sa = ms_records(rec["before"]), ms_records(rec["after"])
+    names, ds = rec["decision_names"], rec["decisions"]
+    out = []
+    if rq.get("version") and parse_relational(rq["version"]) and rq["name"] not in sb and ds:
+        out.append((rq["name"], parse_relational(rq["version"]), ds[0]))
+    cands = {}
+    for n, (v, root, fl) in sa.items():
+        if sb.get(n) == sa[n]:
+            continue
+        info = ms_entry(res, n, v, root)
+        if info is None:
+            continue
+        for a, li in zip(info["actions"], info["lines"]):
+            if not a.startswith("S,"):
+                continue
+            m = common.dec(a.split(",")[2])
+            cands.setdefault(m, []).append(li)
+    for m, lis in cands.items():
+        if len(lis) != 1 or lis[0].startswith("!") or m in sb or names.count(m) != 1 or m == rq["name"]:
+            continue
+        vers, vexpr = lis[0].split("~")
+        # (a line  name [expr]  without a version is not a look-up by expression: no version, so the version entries of
+        # the VRO are passed over and a tag decides)
+        text = common.dec(vers[1:]) if vers != "-" and vexpr == "-" else None
+        alts = parse_relational(text) if text else None
+        if alts:
+            out.append((m, alts, ds[names.index(m)]))
+    return out
+
+
+# ------------------------------------------------------------------ products set up from a DIRECTORY (setup -r dir: version LOCAL:dir,
+# stack (none)).  The setup models do not have them: these scenarios are run on the real code only and judged by the
+# oracle alone (counted under real-code-only:...)
+
+def run_scenario_local(world, requests, env0, locals_):
+    """child: as run_scenario, every request through the command-line front end; a request with "dir": NAME is
+    setup -r <scratch>/local/NAME; locals_: NAME -> table lines of the undeclared product living there"""
+    common.import_eups()
+    import contextlib
+    import io
+    work = common.scratch_dir("setuploc.")
+    try:
+        stack, userdata = materialise(work, world)
+        for name, lines in locals_.items():
+            d = os.path.join(work, "local", name)
+            os.makedirs(os.path.join(d, "ups"))
+            with open(os.path.join(d, "ups", name + ".table"), "w") as f:
+                f.write("\n".join(lines) + "\n")
+        import eups.setupcmd
+        base = {"EUPS_PATH": stack, "EUPS_USERDATA": userdata, "EUPS_FLAVOR": FLAVOR, "EUPS_SHELL": "sh", "HOME": "/root"}
+        env = dict(base)
+        env.update(env0)
+        records = []
+        for rq in requests:
+            sys.modules["eups.db.Database"]._databases.clear()
+            os.environ.clear()
+            os.environ.update(env)
+            before = dict(env)
+            args = cli_args(rq)
+            if rq.get("dir"):
+                args = args[:2] + ["-r", os.path.join(work, "local", rq["dir"])] + args[2:]
+            out, err = io.StringIO(), io.StringIO()
+            try:
+                with contextlib.redirect_stdout(out), contextlib.redirect_stderr(err):
+                    status = eups.setupcmd.EupsSetup(args=args, toolname="eups_setup").run()
+                ok = status == 0 and out.getvalue().strip() != "false"
+            except SystemExit:
+                ok = False
+            except Exception:  # noqa
+                ok = False
+            after = dict(os.environ)
+            records.append({"request": rq, "before": before, "after": after if ok else before, "ok": bool(ok)})
+            if ok:
+                env = after
+        text = json.dumps(records).replace(json.dumps(work)[1:-1], "@WORK@")
+        return {"records": json.loads(text)}
+    finally:
+        shutil.rmtree(work, ignore_errors=True)
+
+
+def gen_scenario_local(rng):
+    """lib is declared (two versions, one current) and also lives, undeclared, in a directory; app requires lib (bare,
+    by version, by tag, by expression); a bystander z.  Sequence: setup -r dir lib (or the declared lib), the bystander,
+    then app with --keep (lib must stay what it was, the directory version included), plain, or unsetup of app"""
+    own = lambda n, s="": ["envPrepend(PATH, ${PRODUCT_DIR}/bin%s)" % s] + \
+        (["envSet(%s_HOME, ${PRODUCT_DIR}/home%s)" % (n.upper(), s)] if rng.random() < 0.5 else [])
+    line = rng.choice(["setupRequired(lib)", "setupRequired(lib 1.0)", "setupRequired(lib -t current)", "setupRequired(lib >= 1.0)",
+                       "setupOptional(lib)"])
+    w = {"root": "stack", "products": {"lib": {"1.0": own("lib"), "2.0": own("lib")}, "z": {"1.0": own("z")},
+                                       "app": {"1.0": own("app") + [line]}},
+         "current": {"lib": rng.choice(["1.0", "2.0"]), "z": "1.0", "app": "1.0"}, "generic": [], "family": "local-directory"}
+    first = {"name": "lib", "fwd": True, "dir": "lib"} if rng.random() < 0.75 else {"name": "lib", "fwd": True, "version": "2.0"}
+    r = rng.random()
+    last = {"name": "app", "fwd": True, "keep": True} if r < 0.7 else {"name": "app", "fwd": True} if r < 0.85 else \
+        {"name": "z", "fwd": True, "keep": True}
+    reqs = [first] + ([{"name": "z", "fwd": True}] if rng.random() < 0.5 else []) + [last]
+    return {"world": w, "requests": reqs, "env0": {"PATH": "/usr/bin:/bin"}, "locals": {"lib": own("lib", "L")}}
+
+
+def run_scenarios_local(ctx, scenarios, oracle, nproc=14):
+    results = common.par_map(run_scenario_local, [(s["world"], s["requests"], s["env0"], s["locals"]) for s in scenarios], nproc=nproc)
+    for s, r in zip(scenarios, results):
+        if r[0] != "ok":
+            raise RuntimeError("local scenario child failed: %r" % (str(r)[-1500:],))
+        ctx.bump("real-code-only:product-set-up-from-a-directory")
+        oracle(ctx, s, r[1])
+    return results
